@@ -1,8 +1,128 @@
-(* Props/C14.v — pinned statements of property C14 (interpreter: non-signature opcodes).
-   Statements only; proofs are in Proofs/Interp*.v.  (first milestone: correspondence only) *)
-From BSV Require Import Base.Hex Model.Opcodes Model.Script Model.Interp Spec.ScriptTok Spec.InterpBSV Run.Exec_C14.
+(* Props/C14.v — pinned statements of property C14 (the interpreter runs the non-signature opcodes per
+   Bitcoin SV semantics).  Statements only; proofs are in Proofs/InterpNum.v, InterpRefine.v, InterpRun.v.
 
-(* non-vacuity: the model runs `1 2 ADD` to the stack [03] and the specification prescribes the same *)
+   impl  = Model/Interp.v (transcription of src/interpreter/*.rs), stacks are Vecs, top LAST;
+   spec  = Spec/InterpBSV.v (Bitcoin SV token loop with a condition stack), stacks are lists, top FIRST;
+           `exec_script` is the specification, `exec_script_lim31` its variant with the library's machine-word
+           limits (OP_SIZE / OP_DEPTH results through an i32, OP_PICK / OP_ROLL / OP_SPLIT operands through a usize),
+           equal to the specification on stacks below 2^31 entries with items below 2^31 bytes (statement 6);
+   agreed opcodes = everything the library implements except the recorded findings (OP_RETURN, OP_NUM2BIN,
+           OP_LSHIFT, OP_RSHIFT, OP_VERIF / OP_VERNOTIF) and the CHECKSIG family (C15);
+   agreed_top script = pushes, agreed opcodes and OP_IF / OP_NOTIF conditionals at any depth, plus (top level only)
+           an OP_ELSE / OP_ENDIF that closes nothing, which both sides refuse. *)
+From BSV Require Import Base.Hex Model.Opcodes Model.Script Model.Interp Spec.ScriptTok Spec.InterpBSV
+  Proofs.ScriptProofs Proofs.InterpNum Proofs.InterpRefine Proofs.InterpRun.
+
+(* 1. script-number and truth codecs: the library decodes and (minimally) re-encodes numbers of any size exactly
+      as Bitcoin SV does; CastToBool is "the number is not zero" *)
+Theorem C14_decode : forall d, to_bigint d = num_of d.
+Proof. exact to_bigint_num_of. Qed.
+Theorem C14_encode : forall z v, push_bigint z v = Ok (v ++ [num_enc z]).
+Proof. exact push_bigint_enc. Qed.
+Theorem C14_truth : forall d, cast_to_bool d = truthy d /\ truthy d = negb (num_of d =? 0)%Z.
+Proof. exact (fun d => conj (cast_to_bool_truthy d) (truthy_num d)). Qed.
+
+(* 2. per opcode: for every agreed opcode, any state and any script position, the arm of match_opcode succeeds
+      exactly when the specification's opcode function does, with the same main and alt stacks *)
+Theorem C14_op_refines :
+  forall o, agreed_op o = true ->
+  forall idx st, refines (match_opcode notx nopre nover idx o st None) (spec_op true o (absS st)).
+Proof. exact op_refines. Qed.
+
+(* 3. conditional execution, library side: the index-and-splice machine computes the structural semantics of the
+      nested script (continuation = skipn script_index script_bits; fuel = number of nested bits) *)
+Theorem C14_splice_is_continuation :
+  forall fuel (i : interp notx) k sa,
+  skipn (script_index i) (script_bits i) = k -> tx_script i = None -> agreed_top k = true ->
+  absS (istate i) = sa -> (bits_size k < fuel)%nat ->
+  match sexec_bits k sa with
+  | Some sa' => exists i', run_fuel notx nopre nover fuel i = RunOk i' /\ absS (istate i') = sa'
+  | None => exists i', run_fuel notx nopre nover fuel i = RunErr i'
+  end.
+Proof. exact machine_sexec. Qed.
+
+(* 4. conditional execution, specification side: the token loop with its condition stack computes the same
+      structural semantics on the flattened script *)
+Theorem C14_flat_is_structural :
+  forall k sa, agreed_top k = true -> exec_script_lim31 (toks k) sa = sexec_bits k sa.
+Proof. exact flat_is_structural. Qed.
+
+(* 5. whole scripts through the public path bytes -> Script::from_bytes -> Interpreter::from_script -> run:
+      same success/failure, same main and alt stack as the Bitcoin SV loop run on the tokens that the independent
+      tokenizer reads from the bytes; any nesting depth *)
+Theorem C14_run_refines :
+  forall bs bits,
+  from_bytes bs = Ok bits -> truncated_tail bs = false -> agreed_top bits = true ->
+  exists ts, tokenize_spec bs = TokOk ts /\
+    match exec_script_lim31 ts ([], []) with
+    | Some (s, a) => exists i', Interp.run notx nopre nover (start bits) = RunOk i'
+                                /\ stack (istate i') = rev s /\ alt_stack (istate i') = rev a
+    | None => exists i', Interp.run notx nopre nover (start bits) = RunErr i'
+    end.
+Proof. exact run_refines. Qed.
+
+(* 6. the machine-word variant is the specification below 2^31 *)
+Theorem C14_lim_is_spec :
+  forall o s a, small_stack s -> spec_op true o (s, a) = spec_op false o (s, a).
+Proof. exact spec_op_lim. Qed.
+
+Print Assumptions C14_decode.
+Print Assumptions C14_encode.
+Print Assumptions C14_truth.
+Print Assumptions C14_op_refines.
+Print Assumptions C14_splice_is_continuation.
+Print Assumptions C14_flat_is_structural.
+Print Assumptions C14_run_refines.
+Print Assumptions C14_lim_is_spec.
+
+(* ------------------------------------------------------------------ *)
+(* 7. the finding classes are real: inside each class the library and Bitcoin SV differ *)
+Definition lib_run (bits : list bit) : option (list bytes * list bytes) :=
+  match Interp.run notx nopre nover (start bits) with
+  | RunOk i => Some (stack (istate i), alt_stack (istate i))
+  | _ => None
+  end.
+Definition parsed (bs : bytes) : list bit := match from_bytes bs with Ok b => b | _ => [] end.
+
+(* `1 RETURN 2`: the library goes on to [01, 02]; Bitcoin SV stops with [01] *)
+Example C14_op_return_refuted :
+  lib_run (parsed [x51; x6a; x52]) = Some ([[x01]; [x02]], [])
+  /\ exec_script [TOp 81; TOp 106; TOp 82] ([], []) = Some ([[x01]], []).
+Proof. split; vm_compute; reflexivity. Qed.
+(* `12 1 RSHIFT`: the library computes 1 >> 12 = empty; Bitcoin SV shifts the byte 0c right by one bit *)
+Example C14_shift_refuted :
+  lib_run (parsed [x5c; x51; x99]) = Some ([[]], [])
+  /\ exec_script [TOp 92; TOp 81; TOp 153] ([], []) = Some ([[x06]], []).
+Proof. split; vm_compute; reflexivity. Qed.
+(* `0 4 NUM2BIN`: the library fails; Bitcoin SV gives 00000000 *)
+Example C14_num2bin_refuted :
+  lib_run (parsed [x00; x54; x80]) = None
+  /\ exec_script [TOp 0; TOp 84; TOp 128] ([], []) = Some ([[x00; x00; x00; x00]], []).
+Proof. split; vm_compute; reflexivity. Qed.
+(* `1 VERIF 2 ENDIF`: the library runs it as a conditional; Bitcoin SV fails *)
+Example C14_verif_refuted :
+  lib_run (parsed [x51; x65; x52; x68]) = Some ([[x02]], [])
+  /\ exec_script [TOp 81; TOp 101; TOp 82; TOp 104] ([], []) = None.
+Proof. split; vm_compute; reflexivity. Qed.
+(* `1 IF 2 ELSE 3 ELSE 4 ENDIF`: the second ELSE sits unnoticed in the branch that is not taken *)
+Example C14_second_else_refuted :
+  lib_run (parsed [x51; x63; x52; x67; x53; x67; x54; x68]) = Some ([[x02]], [])
+  /\ exec_script [TOp 81; TOp 99; TOp 82; TOp 103; TOp 83; TOp 103; TOp 84; TOp 104] ([], []) = None
+  /\ cls_second_else [TOp 81; TOp 99; TOp 82; TOp 103; TOp 83; TOp 103; TOp 84; TOp 104] = true.
+Proof. repeat split; vm_compute; reflexivity. Qed.
+(* `05 01`: a truncated direct push is executed with the shortened data; the specification has no token sequence *)
+Example C14_truncated_push_refuted :
+  lib_run (parsed [x05; x01]) = Some ([[x01]], []) /\ tokenize_spec [x05; x01] = TokTruncDirect.
+Proof. split; vm_compute; reflexivity. Qed.
+
+(* non-vacuity of 5: a nested script over agreed opcodes (1 IF 2 3 ADD ELSE 9 ENDIF 4 MUL -> 20) *)
 Example C14_nonvacuous :
-  Exec_C14.run "interp.run" ["515293"] = "OK:03,;;81,82,147,;0|OK:03,;;*;*|-".
-Proof. vm_compute. reflexivity. Qed.
+  let bs := [x51; x63; x52; x53; x93; x67; x59; x68; x54; x95] in
+  exists bits, from_bytes bs = Ok bits /\ truncated_tail bs = false /\ agreed_top bits = true
+               /\ lib_run bits = Some ([[x14]], []).
+Proof. eexists; repeat split; vm_compute; reflexivity. Qed.
+(* the repaired case `1 ENDIF`: inside the theorem, both sides fail *)
+Example C14_nonvacuous_stray :
+  exists bits, from_bytes [x51; x68] = Ok bits /\ agreed_top bits = true /\ lib_run bits = None
+               /\ exec_script [TOp 81; TOp 104] ([], []) = None.
+Proof. eexists; repeat split; vm_compute; reflexivity. Qed.
